@@ -47,8 +47,8 @@ SPEC = dict(
                   '+ full round trip through the library as oracle + differential correspondence of every model',
     ),
     translators=[('deserialize.py deserialize_boc_header, deserialize_cell, deserialize->Generated/BocHeader.lean, BocCells.lean', boccells.regenerate),
-                 ('cell.py Cell.serialize, order, to_boc; deserialize.py Boc.__init__->Generated/BocEmitSrc.lean', bocemit.regenerate)],
-    lean_targets=['TonVerif.Proofs.SrcBocDeser', 'TonVerif.Proofs.SrcBocEmit'],
+                 (bocemit.TIE_NAME, bocemit.regenerate_tied)],
+    lean_targets=['TonVerif.Proofs.SrcBocDeser', 'TonVerif.Proofs.SrcBocEmit', 'TonVerif.Proofs.SrcOrderAny', 'TonVerif.Proofs.SrcBocAny'],
     design_ref='DESIGN.md §6 C03',
     rule='same DAG generators as C04; each DAG x 6 option sets x {bytes, hex, base64} x {Cell, Slice, Builder}.one_from_boc (large DAGs: all option sets through Cell/bytes, one option set '
          'through all forms and entry points); distinct = distinct (dag, root, option set, form, entry); non-trivial = more than one cell or non-empty data',
@@ -295,6 +295,11 @@ def run(ctx):
     for r in range(0, 30, 4):
         check_case(ctx, f'inner{r}', nodes, r)
     check_forms_model(ctx, ctx.rng)
+    if bocemit.valid_order_only(ctx):
+        # only the MODEL EQUALITY of the traversal (Properties/C04Model.lean) is broken; c03_roundtrip_src2 is proved from the
+        # regenerated loop's invariant (core built and audited Properties/C03.lean).  The correspondence of this check runs the
+        # parser model on the LIBRARY's bytes and does not depend on the emitter model's visiting order.
+        bocemit.note_valid_order_only(ctx)
 
 
 def replay(ctx, payload):
